@@ -149,14 +149,16 @@ class ConfigList(ComposedNode, list):
             if _missing_keys:
                 raise MergeError(f'merging a dict into a list requires all dict nodes to map to the existing indices in the list but the following keys are invalid: {_missing_keys}', node=self, path=prefix, extra_node=first_missing)
 
-        def keep_if_exists(path, node):
-            if not node.ayns.delete:
-                return True
-            current = self.ayns.get_first_not_missing_node(path)
-            return node.ayns.has_priority_over(current, if_equal=True)
-
         if isinstance(other, ComposedNode):
-            other.ayns.filter_nodes(keep_if_exists)
+            # a deleting element of "other" which is outranked by the element it would replace (or by this list,
+            # if it would be appended) has no effect at all, drop it together with everything below it; whatever
+            # is nested deeper competes when (and if) the corresponding nodes are merged
+            for name, child in reversed(list(other.ayns.named_children())):
+                current = self.ayns.get_child(name, None)
+                if current is None:
+                    current = self
+                if child.ayns.delete and not child.ayns.has_priority_over(current, if_equal=True):
+                    other.ayns.remove_child(name)
 
         return super().ayns.on_merge_impl(prefix, other)
 
